@@ -11,8 +11,45 @@ def arr(x, kind):
     return a
 
 
+def session(job):
+    """all n*n calls of a session on the SAME argument objects (built once): float64 arrays, integer-dtype arrays or nested lists"""
+    kind = job["container"]
+    def mk(x):
+        if kind == "list":
+            return [[float(v) for v in r] for r in x]
+        if kind == "intlist":
+            return [[int(v) for v in r] for r in x]
+        if kind == "int":
+            return np.array([[int(v) for v in r] for r in x], dtype=np.int64).reshape(-1, 2)
+        if kind == "float32":
+            return np.array(x, dtype=np.float32).reshape(-1, 2)
+        return np.array(x, dtype=float).reshape(-1, 2)
+    objs = [mk(d) for d in job["D"]]
+    snap = [repr(o) if isinstance(o, list) else o.tobytes() for o in objs]
+    dist = job["dist"]
+    out = []
+    for i in range(len(objs)):
+        for j in range(len(objs)):
+            try:
+                with warnings.catch_warnings():
+                    warnings.simplefilter("ignore")
+                    if dist == "sliced":
+                        v = persim.sliced_wasserstein(objs[i], objs[j], M=job["M"])
+                    elif dist == "heat":
+                        v = persim.heat(objs[i], objs[j], sigma=job["sigma"])
+                    else:
+                        v = getattr(persim, dist)(objs[i], objs[j])
+                out.append({"dist": fl(v)})
+            except Exception as ex:
+                out.append({"raised": type(ex).__name__ + ": " + str(ex)[:120]})
+    mutated = [k for k, o in enumerate(objs) if (repr(o) if isinstance(o, list) else o.tobytes()) != snap[k]]
+    return {"dists": out, "mutated": mutated}
+
+
 def handler(job):
     fn = job["fn"]
+    if fn == "session":
+        return session(job)
     S, T = arr(job["S"], job.get("container", "array")), arr(job["T"], job.get("container", "array"))
     out = {}
     if fn in ("bottleneck", "wasserstein"):
